@@ -87,6 +87,7 @@ def fuzzy(text, target):
     if not target: return '-'
     try:
         m = re.search(M._make_fuzzy_regex(target), text)
+        assert m is None or 0 <= m.start() <= m.end() <= len(text)      # the hypothesis fuzzy_ok of C14_weave: a regex match is a span of the text
         return '%d/%d' % (m.start(), m.end()) if m else '-'
     except re.error: return '-'
 
